@@ -31,7 +31,7 @@ def bounds(tier):
 
 
 def goals(tier):
-    return ["module-typing", "vector-typing", "assembly-k3", "assembly-rotated", "registry-typing", "palindromic-overhang", "rejected-both-strands", "ambiguity-code-in-record", "positions-of-the-reverse-complemented-target"]
+    return ["module-typing", "vector-typing", "assembly-k3", "assembly-rotated", "registry-typing", "palindromic-overhang", "rejected-both-strands", "ambiguity-code-in-record", "positions-of-the-reverse-complemented-target", "ambiguity-code-in-a-junction-overhang"]
 
 
 def typed(cls, rec):
@@ -241,6 +241,16 @@ def run_unit(unit, st, tier):
                     check_assembly(st, base)
                     if k == 3:
                         st.goal("assembly-k3")
+                    if scheme == 0 and pj is None and g.ov >= 2:
+                        # the ambiguity code N inside ONE junction overhang (each junction in turn, incl. the closing one): both
+                        # copies of the overhang carry it, so the plasmids still ligate -- on either strand
+                        for j in range(k + 1):
+                            w = base["ovs"][j]
+                            wn = w[:1] + "N" + w[2:]
+                            nb = dict(base, ovs=[wn if i == j else x for i, x in enumerate(base["ovs"])])
+                            if asm.well_formed(nb)[0]:
+                                check_assembly(st, nb)
+                                st.goal("ambiguity-code-in-a-junction-overhang")
                     vec, mods = asm.pieces_to_plasmids(base)
                     lens = [len(vec)] + [len(m) for m in mods]
                     which_list = range(k + 1) if tier == "thorough" else (0, 1)
